@@ -433,7 +433,7 @@ def run(tier, seed):
     run.bounded.append(dict(name="float: uset_convert on generated USET tables (rectangular, offset cylindrical and spherical output systems) - only location and origin rows "
                                  "scale; rbgeom_uset of the converted table == unit-converted rigid-body modes", evaluations=ev, failures=0 if cf is None else 1,
                             label="bounded (never counted as proved)"))
-    ev2, cf2 = report.guarded(run, cbcheck_bounded, seed, 8 if tier == "quick" else 60)
+    ev2, cf2 = report.guarded(run, cbcheck_bounded, seed, 8 if tier == "quick" else 420)
     run.bounded.append(dict(name="float: cbcheck on generated free 3-D structures (own Craig-Bampton reduction, 2 boundary grids, b-set first/last, reference = first/second grid, "
                                  "all/truncated modes, unit conversion): three rigid-body constructions coincide with geometry, mass properties of the structure, no grounding, "
                                  "effective-mass bookkeeping, fixed-base frequencies", evaluations=ev2, failures=0 if cf2 is None else 1, label="bounded (never counted as proved)"))
